@@ -41,6 +41,113 @@ def lkSel (lk : Link) (s : Station) : Bool :=
 def rtUp (s0 : Nat × Mac) (lk : Link) (er : Bool) (prio : Nat) (data : Bytes) : Up :=
   ⟨.remoteStation s0.1 s0.2, some lk.toAddr, er, prio, data⟩
 
+/-- the source a station is shown: the SADR if the frame has one, else the link source -/
+def srcOf (sIn : Option (Nat × Mac)) (u : Mac) : Addr :=
+  match sIn with
+  | some s => .remoteStation s.1 s.2
+  | none => .localStation u
+
+/-- a station hearing a frame without DADR (last leg of a routed packet, or local traffic) -/
+theorem station_leg (lan : Nat) (s : Station) (sIn : Option (Nat × Mac)) (v : Option Nat) (er : Bool) (prio : Nat)
+    (data : Bytes) (h : Nat) (u : Mac) (lk : Link) (hs : ∀ s0, sIn = some s0 → s0.1 ≠ lan) :
+    delivered (s.tnode lan) (s.adapter lan) ⟨lan, u, lk, rtp none sIn v er prio data h⟩ =
+      [⟨lan, s.mac, ⟨srcOf sIn u, some lk.toAddr, er, prio, data⟩⟩] ∧
+    emitted (s.tnode lan) (s.adapter lan) ⟨lan, u, lk, rtp none sIn v er prio data h⟩ = [] := by
+  have hloc : (s.tnode lan).node.loc = some (s.adapter lan) := by
+    simp [Node.loc, Station.tnode, Station.adapter]
+  have hsp : spoofed (s.tnode lan).node (rtp none sIn v er prio data h) = false := by
+    cases sIn with
+    | none => rfl
+    | some s0 =>
+      simp only [spoofed, rtp, Node.hasNet, Station.tnode, Station.adapter, List.any_cons, List.any_nil]
+      cases s.knowsNet <;> simp [Ne.symm (hs s0 rfl)]
+  have hr : ∃ lrn, route (s.tnode lan).node (s.tnode lan).cache (s.adapter lan) u lk (rtp none sIn v er prio data h) =
+      { learn := lrn, up := some ⟨srcOf sIn u, some lk.toAddr, er, prio, data⟩, out := [] } := by
+    unfold route
+    simp only [hloc, hsp]
+    cases sIn <;> simp [classify, rtp, routeGo, shown, Station.tnode, srcOf]
+  obtain ⟨lrn, hr⟩ := hr
+  constructor
+  · simp only [delivered, hr]
+    simp [Station.adapter]
+  · simp only [emitted, hr]
+    simp [Decision.sends]
+
+/-- a router hearing a frame without DADR on its up port: nothing happens -/
+theorem router_leg (P ua : Nat) (um : Mac) (la : Nat) (c : Cache) (ds : Downs)
+    (sIn : Option (Nat × Mac)) (v : Option Nat) (er : Bool) (prio : Nat) (data : Bytes) (h : Nat) (u : Mac) (lk : Link)
+    (hla : la ∈ ua :: ds.aids) (hs : ∀ s0, sIn = some s0 → s0.1 ≠ P ∧ s0.1 ∉ ds.lans) :
+    delivered (routerNode P ua um la c ds) (mkPort ua um P) ⟨P, u, lk, rtp none sIn v er prio data h⟩ = [] ∧
+    emitted (routerNode P ua um la c ds) (mkPort ua um P) ⟨P, u, lk, rtp none sIn v er prio data h⟩ = [] := by
+  obtain ⟨loc, hloc, _, _⟩ := router_loc P ua um la c ds hla
+  have hsp : spoofed (routerNode P ua um la c ds).node (rtp none sIn v er prio data h) = false := by
+    cases sIn with
+    | none => rfl
+    | some s0 =>
+      simp only [spoofed, rtp]
+      exact router_hasNet P ua um la c ds s0.1 (hs s0 rfl).1 (hs s0 rfl).2
+  have hr : ∃ lrn, route (routerNode P ua um la c ds).node (routerNode P ua um la c ds).cache (mkPort ua um P) u lk
+      (rtp none sIn v er prio data h) = { learn := lrn } := by
+    unfold route
+    simp only [hloc, hsp]
+    simp [classify, rtp, routeGo, routerNode]
+  obtain ⟨lrn, hr⟩ := hr
+  constructor
+  · simp [delivered, hr]
+  · simp [emitted, hr, Decision.sends]
+
+/-- the routers of a network ignore a frame without DADR -/
+theorem routers_leg (v : Option Nat) (er : Bool) (prio : Nat) (data : Bytes)
+    (sIn : Option (Nat × Mac)) (topo : Topology) (P : Nat) (rs : Routers) (u : Mac) (h : Nat) (lk : Link)
+    (hwf : rs.wf = true) (hs : ∀ s0, sIn = some s0 → s0.1 ≠ P ∧ s0.1 ∉ rs.lans) :
+    (((rs.upEntries P).filter (fun x => macOk ⟨P, u, lk, rtp none sIn v er prio data h⟩ x.2)).flatMap fun x =>
+        delivered x.1 x.2 ⟨P, u, lk, rtp none sIn v er prio data h⟩ ++
+          (emitted x.1 x.2 ⟨P, u, lk, rtp none sIn v er prio data h⟩).flatMap (deliverAll topo)) = [] := by
+  match rs with
+  | .nil => rfl
+  | .cons ua um la c ds rest =>
+    simp only [Routers.wf, Bool.and_eq_true, decide_eq_true_eq, List.nodup_cons, List.contains_iff_mem] at hwf
+    obtain ⟨⟨⟨⟨_, _⟩, hla⟩, _⟩, hrwf⟩ := hwf
+    have hs1 : ∀ s0, sIn = some s0 → s0.1 ≠ P ∧ s0.1 ∉ ds.lans := by
+      intro s0 e
+      have := hs s0 e
+      simp only [Routers.lans, List.mem_append, not_or] at this
+      exact ⟨this.1, this.2.1⟩
+    have hs2 : ∀ s0, sIn = some s0 → s0.1 ≠ P ∧ s0.1 ∉ rest.lans := by
+      intro s0 e
+      have := hs s0 e
+      simp only [Routers.lans, List.mem_append, not_or] at this
+      exact ⟨this.1, this.2.2⟩
+    obtain ⟨hd, he⟩ := router_leg P ua um la c ds sIn v er prio data h u lk hla hs1
+    have ih := routers_leg v er prio data sIn topo P rest u h lk hrwf hs2
+    simp only [Routers.upEntries, List.filter_cons]
+    split
+    · simp only [List.flatMap_cons, hd, he, List.flatMap_nil, List.append_nil, List.nil_append]
+      exact ih
+    · exact ih
+
+/-- the stations of a network hearing a frame without DADR: those the link destination selects
+    (and, for a broadcast, not the sender itself) are handed it once -/
+theorem stations_leg (v : Option Nat) (er : Bool) (prio : Nat) (data : Bytes)
+    (sIn : Option (Nat × Mac)) (topo : Topology) (lan : Nat) (sts : List Station) (u : Mac) (h : Nat)
+    (lk : Link) (hs : ∀ s0, sIn = some s0 → s0.1 ≠ lan) :
+    (((stationEntries lan sts).filter (fun x => macOk ⟨lan, u, lk, rtp none sIn v er prio data h⟩ x.2)).flatMap fun x =>
+        delivered x.1 x.2 ⟨lan, u, lk, rtp none sIn v er prio data h⟩ ++
+          (emitted x.1 x.2 ⟨lan, u, lk, rtp none sIn v er prio data h⟩).flatMap (deliverAll topo)) =
+      (sts.filter (fun s => macOk ⟨lan, u, lk, rtp none sIn v er prio data h⟩ (s.adapter lan))).map
+        (fun s => ⟨lan, s.mac, ⟨srcOf sIn u, some lk.toAddr, er, prio, data⟩⟩) := by
+  induction sts with
+  | nil => rfl
+  | cons s sts ih =>
+    obtain ⟨hd, he⟩ := station_leg lan s sIn v er prio data h u lk hs
+    simp only [stationEntries, List.map_cons, List.filter_cons] at ih ⊢
+    by_cases hsel : macOk ⟨lan, u, lk, rtp none sIn v er prio data h⟩ (s.adapter lan) = true
+    · simp only [hsel, if_true, List.flatMap_cons, hd, he, List.flatMap_nil, List.append_nil, List.map_cons]
+      rw [ih]
+      rfl
+    · simp only [hsel, Bool.false_eq_true, if_false]
+      exact ih
+
 def rtExpect (d : Nat) (lk : Link) (s0 : Nat × Mac) (er : Bool) (prio : Nat) (data : Bytes)
     (sts : List Station) : List Delivery :=
   (sts.filter (lkSel lk)).map (fun s => ⟨d, s.mac, rtUp s0 lk er prio data⟩)
@@ -822,5 +929,49 @@ theorem filter_mac_single (l : List Station) (t : Station) (hn : (l.map (·.mac)
       simp [List.filter_cons, this]
     · have hne : s.mac ≠ t.mac := fun e => hn.1 (e ▸ List.mem_map_of_mem ht)
       simp [List.filter_cons, hne, ih hn.2 ht]
+
+end BacVerif.C06
+namespace BacVerif.C06
+open BacVerif BacVerif.Route
+
+theorem originate_local (lan : Nat) (o : Station) (lk : Link) (er : Bool) (prio : Nat) (data : Bytes) :
+    originPackets (originate (o.st lan) lk.toAddr er prio data).2 =
+      [⟨lan, o.mac, lk, rtp none none none er prio data 255⟩] := by
+  have hloc : (o.st lan).node.loc = some (o.adapter lan) := station_loc lan o
+  cases lk with
+  | bcast =>
+    simp only [originate, Link.toAddr, hloc]
+    simp [Station.st, Station.tnode, originPackets, rtp, Station.adapter]
+  | to m =>
+    simp only [originate, Link.toAddr, hloc]
+    simp [Station.st, Station.tnode, originPackets, rtp, Station.adapter]
+
+/-- deliveries of a local broadcast (`lk = .bcast`) or a local unicast (`lk = .to m`) from `o` -/
+def localDeliveries (T : NetTree) (o : Station) (lk : Link) (er : Bool) (prio : Nat) (data : Bytes) :
+    List Delivery :=
+  (originPackets (originate (o.st T.lan) lk.toAddr er prio data).2).flatMap (deliverAll T.nodes)
+
+/-- local traffic on a tree: handed to the selected stations of the originator's own network,
+    each once, source shown = the originator's local address; no router does anything -/
+theorem tree_local (T : NetTree) (o : Station) (lk : Link) (er : Bool) (prio : Nat) (data : Bytes)
+    (hnd : T.lans.Nodup) (hwf : T.wf [] = true) :
+    localDeliveries T o lk er prio data =
+      (T.stations.filter (fun s => macOk ⟨T.lan, o.mac, lk, rtp none none none er prio data 255⟩ (s.adapter T.lan))).map
+        (fun s => ⟨T.lan, s.mac, ⟨.localStation o.mac, some lk.toAddr, er, prio, data⟩⟩) := by
+  match T with
+  | .mk lan sts rs =>
+    have hT := HT.whole (.mk lan sts rs)
+    simp only [NetTree.lans, List.nodup_cons] at hnd
+    simp only [NetTree.wf, Bool.and_eq_true, decide_eq_true_eq] at hwf
+    unfold localDeliveries
+    simp only [NetTree.lan, NetTree.stations]
+    rw [originate_local]
+    simp only [List.flatMap_cons, List.flatMap_nil, List.append_nil]
+    rw [deliverAll_attached]
+    simp only []
+    rw [hT.root hnd.1, List.nil_append, List.filter_append, List.flatMap_append]
+    rw [stations_leg none er prio data none _ lan sts o.mac 255 lk (fun s e => by cases e)]
+    rw [routers_leg none er prio data none _ lan rs o.mac 255 lk hwf.2 (fun s e => by cases e)]
+    simp [srcOf]
 
 end BacVerif.C06
